@@ -58,7 +58,25 @@ type Violation struct {
 	Stack   []string          `json:"stack,omitempty"`
 }
 
-func (v *Violation) Key() string { return v.Harness + "|" + v.Kind + "|" + v.Label }
+func (v *Violation) Key() string {
+	l := v.Label
+	if v.Kind != "assert" {
+		// panic/alloc messages carry concrete numbers: one finding per message shape
+		var sb strings.Builder
+		for _, r := range l {
+			if r >= '0' && r <= '9' {
+				if sb.Len() > 0 && strings.HasSuffix(sb.String(), "#") {
+					continue
+				}
+				sb.WriteByte('#')
+				continue
+			}
+			sb.WriteRune(r)
+		}
+		l = sb.String() + "@" + v.Pos
+	}
+	return v.Harness + "|" + v.Kind + "|" + l
+}
 
 type nondet struct {
 	name string
@@ -310,19 +328,27 @@ func (i *interpreter) concInt(fr *frame, v value, signed bool, why string) int64
 }
 
 // choose picks one of n alternatives (all explored).
-func (i *interpreter) choose(n int, why string) int {
+func (i *interpreter) choose(n int, why string) int { return i.chooseK(n, 'c') }
+
+// chooseK: kind 'v' is a harness-level vChoose (a named input), 'c' an engine choice (schedule, select, map order).
+func (i *interpreter) chooseK(n int, kind byte) int {
 	ps := i.ps
 	if n <= 1 {
 		return 0
 	}
 	if ps.replaying() {
-		d := ps.nextDec("c")
+		d := ps.nextDec(string(kind))
 		return int(d.V)
 	}
-	for k := n - 1; k >= 1; k-- {
-		ps.fork(Dec{'c', uint64(k)})
+	if ps.eng.Cfg.ConcreteMode {
+		// concrete replay of a counterexample: decisions beyond the recorded ones take the first alternative
+		ps.record(Dec{kind, 0})
+		return 0
 	}
-	ps.record(Dec{'c', 0})
+	for k := n - 1; k >= 1; k-- {
+		ps.fork(Dec{kind, uint64(k)})
+	}
+	ps.record(Dec{kind, 0})
 	return 0
 }
 
